@@ -11,7 +11,7 @@ harness: c09 executes every case with ValidationMode::Strict on the derive-built
          built from schemas/valid.json (both compared with the JSON through introspection at start-up); a recording
          extension reports the parse / validation hook results, resolvers count their calls.
 V:       ValidationTrace.tla: rejected before execution <=> Violations # {}; every rejection has >= 1 located error."""
-import json, os, random, sys
+import json, os, random, sys, time
 from concurrent.futures import ThreadPoolExecutor
 sys.path.insert(0, os.path.join(os.path.dirname(os.path.abspath(__file__)), "..", "lib"))
 import vlib, valgen
@@ -45,7 +45,7 @@ def parse_v(v, legend):
 def judge(c, path):
     """mode V on a recorded trace: (tlc result, legend, {case id: (verdict string, violated clauses)})"""
     v = vlib.run_tlc_sliced("gql/ValidationTrace.tla", "gql/ValidationTrace.cfg", path, env={"SCHEMA": SCHEMA},
-                            slices=6 if c.quick else 8, timeout=6000, keep_lines=60, xmx="3g")
+                            slices=8, timeout=6000, keep_lines=60, xmx="3g")
     legend = {"D": {}, "C": {}}
     for t in v.tagged("LEGEND"):
         legend[t[1]][t[2]] = t[3]
@@ -98,6 +98,7 @@ def body(c):
     for act in ("AddField", "AddInline", "AddSpread", "Close", "NewSection"):
         if m.coverage.get("Gen_ValDoc!" + act, (0, 0))[1] == 0:
             raise vlib.ToolError("generator action %s never taken in mode M" % act)
+    t0b = time.time()
     c.add_tlc("M Gen_ValDoc", m)
     c.add_tlc("G1 Gen_ValDoc (%d configurations)" % len(confs), g)
     # ---- G1 cases ----
@@ -148,8 +149,11 @@ def body(c):
         x["id"] = i + 1
     vlib.write_ndjson(c.path("cases.ndjson"), cases)
     # ---- harness, V ----
+    t1 = time.time()
     obs = run_harness(c)
+    t2 = time.time()
     v, legend, verdicts = judge(c, c.path("trace.ndjson"))
+    c.notes.append("stage wall times: M+G1 %.0fs, case assembly %.0fs, harness build+run %.0fs, V %.0fs" % (t0b - c.t0, t1 - t0b, t2 - t1, time.time() - t2))
     c.add_tlc("V ValidationTrace", v)
     if len(verdicts) != len(obs):
         raise vlib.ToolError("V produced %d verdicts for %d cases" % (len(verdicts), len(obs)))
